@@ -4,14 +4,16 @@ import (
 	"bytes"
 	"context"
 	"regexp"
-	"sort"
 	"time"
 
 	"github.com/prometheus/client_golang/prometheus"
 	"github.com/prometheus/common/model"
+	"github.com/prometheus/common/promslog"
 	"google.golang.org/protobuf/types/known/timestamppb"
 
+	"github.com/prometheus/alertmanager/featurecontrol"
 	"github.com/prometheus/alertmanager/marker"
+	"github.com/prometheus/alertmanager/matcher/compat"
 	pb "github.com/prometheus/alertmanager/silence/silencepb"
 )
 
@@ -76,35 +78,27 @@ func hMatch02(sil *pb.Silence, lset model.LabelSet) bool {
 	return false
 }
 
-// hOracle02: ids of all stored silences that match lset and are active now.
-func hOracle02(s *Silences, lset model.LabelSet, now time.Time) []string {
-	var ids []string
+// hOracle02: ids of all stored silences that match lset, with a branch-free
+// "is active now" flag each (start <= now <= end).
+func hOracle02(s *Silences, lset model.LabelSet, now time.Time) (ids []string, active []bool) {
 	for id, msil := range s.st {
 		sil := msil.Silence
 		if !hMatch02(sil, lset) {
 			continue
 		}
-		if now.Before(sil.StartsAt.AsTime()) || now.After(sil.EndsAt.AsTime()) {
-			continue
-		}
 		ids = append(ids, id)
+		active = append(active, vfAnd(!now.Before(sil.StartsAt.AsTime()), !now.After(sil.EndsAt.AsTime())))
 	}
-	sort.Strings(ids)
-	return ids
+	return ids, active
 }
 
-func hSameIDs02(a, b []string) bool {
-	if len(a) != len(b) {
-		return false
-	}
-	a = append([]string{}, a...)
-	sort.Strings(a)
-	for i := range a {
-		if a[i] != b[i] {
-			return false
+func hHas02(xs []string, x string) bool {
+	for _, y := range xs {
+		if y == x {
+			return true
 		}
 	}
-	return true
+	return false
 }
 
 type hEnv02 struct {
@@ -117,10 +111,21 @@ func (e *hEnv02) check(tag string, lset model.LabelSet) {
 	ctx := marker.WithContext(context.Background(), e.mk)
 	got := e.sl.Mutes(ctx, lset)
 	now := vfNow()
-	want := hOracle02(e.s, lset, now)
-	vfAssert("mutes-equals-stored-silences", got == (len(want) > 0))
+	ids, active := hOracle02(e.s, lset, now)
+	any := false
+	for _, a := range active {
+		any = vfOr(any, a)
+	}
+	vfAssert("mutes-equals-stored-silences", got == any)
 	st := e.mk.Status(lset.Fingerprint())
-	vfAssert("marker-ids-equal-oracle", hSameIDs02(st.SilencedBy, want))
+	// the marker lists exactly the active matching silences
+	ok := true
+	n := 0
+	for i, id := range ids {
+		ok = vfAnd(ok, hHas02(st.SilencedBy, id) == active[i])
+		n += vfIteInt(active[i], 1, 0)
+	}
+	vfAssert("marker-ids-equal-oracle", vfAnd(ok, len(st.SilencedBy) == n))
 	if got {
 		vfReach("muted")
 	} else {
@@ -142,15 +147,20 @@ func VerifC02_History() {
 	if vfTier() > 0 {
 		k = 3
 	}
+	// the application initialises matcher compatibility from its (default) flags
+	compat.InitFromFlags(promslog.NewNopLogger(), featurecontrol.NoopFlags{})
 	e := &hEnv02{s: hNew02(time.Hour), mk: marker.NewAlertMarker()}
-	e.sl = NewSilencer(e.s, nil, e.s.recorder)
+	e.sl = NewSilencer(e.s, promslog.NewNopLogger(), e.s.recorder)
 	ctx := context.Background()
-	lset := hLsets02[vfChoice("alert", 3)]
-	other := hLsets02[vfChoice("other", 3)]
+	// (matcher set, alert, second alert): matching through equality, regex+negation,
+	// an OR-ed second set, a UTF-8 name, and one pair that does not match
+	pair := [][3]int{{0, 0, 1}, {1, 0, 1}, {2, 0, 1}, {3, 2, 0}, {0, 1, 0}, {2, 1, 2}}[vfChoice("pair", 4+2*vfTier())]
+	lset := hLsets02[pair[1]]
+	other := hLsets02[pair[2]]
 
 	now := vfNow()
 	s1 := &pb.Silence{
-		MatcherSets: hMatcherSets02(vfChoice("m1", 4)),
+		MatcherSets: hMatcherSets02(pair[0]),
 		StartsAt:    timestamppb.New(now.Add(vfSeconds("s1.startIn", 0, 3600))),
 		EndsAt:      timestamppb.New(now.Add(time.Hour + vfSeconds("s1.len", 0, 7200))),
 		Comment:     "one",
@@ -166,7 +176,7 @@ func VerifC02_History() {
 		case 0: // nothing but the passage of time
 		case 1: // a second silence
 			s2 := &pb.Silence{
-				MatcherSets: hMatcherSets02(vfChoice("m2", 4)),
+				MatcherSets: hMatcherSets02(vfChoice("m2", 2+2*vfTier())),
 				StartsAt:    timestamppb.New(now.Add(vfSeconds("s2.startIn", 0, 3600))),
 				EndsAt:      timestamppb.New(now.Add(time.Hour + vfSeconds("s2.len", 0, 7200))),
 				Comment:     "two",
@@ -220,7 +230,7 @@ func VerifC02_History() {
 			ns := hNew02(time.Hour)
 			vfAssert("load-ok", ns.loadSnapshot(&buf) == nil)
 			e.s = ns
-			e.sl = NewSilencer(ns, nil, ns.recorder)
+			e.sl = NewSilencer(ns, promslog.NewNopLogger(), ns.recorder)
 			vfReach("op-reload")
 		case 7: // the alert was garbage collected: cache entry dropped
 			e.sl.PostGC(model.Fingerprints{lset.Fingerprint()})
